@@ -145,7 +145,7 @@ PROPS["C01"] = {
     "kani": _cell_roundtrips() + _layouts() + [
         H(_POOL + "c01_pool_image_ab", timeout=600, symbolic="reference counts (u16) of a 2-entry pool, texts 'a','b' concrete",
           bounds="2 entries; unwind 8", functions=["stringpool::StringPool::write_pool", "stringpool::StringPool::write_data", "codepage::ascii_encode"]),
-        H(_POOL + "c01_pool_image_a_free_b_long", tier="thorough", timeout=900, symbolic="reference counts of a 3-entry pool with a free slot, long refs",
+        H(_POOL + "c01_pool_image_a_free_b_long", tier="thorough", timeout=1200, mem_gb=8, symbolic="reference counts of a 3-entry pool with a free slot, long refs",
           bounds="3 entries; unwind 8", functions=["stringpool::StringPool::write_pool", "stringpool::StringPool::write_data"]),
         H(_POOL + "c02_pool_read_ab", timeout=300, symbolic="reference counts (u16) in an independently encoded pool header",
           bounds="2 entries; unwind 8", functions=_F_POOL),
@@ -192,9 +192,6 @@ PROPS["C02"] = {
           bounds="<=3 records; unwind 8", functions=["stringpool::StringPoolBuilder::read_from_pool", "stringpool::StringPoolBuilder::build_from_data"]),
         H(_PS + "c09_propvalue_read_i4", timeout=600, mem_gb=5, symbolic="8 payload bytes, available stream length", bounds="type tag concrete (I4); unwind 8", functions=["propset::PropertyValue::read"]),
         H(_PS + "c09_propvalue_read_i2", tier="thorough", timeout=900, mem_gb=5, symbolic="payload bytes, stream length", bounds="type tag concrete (I2)", functions=["propset::PropertyValue::read"]),
-        H(_PS + "c02_propset_read_vs_spec", tier="thorough", timeout=1800, mem_gb=12,
-          symbolic="two integer property values, order of the id/offset table, padding between values",
-          bounds="2 properties; unwind 10", functions=["propset::PropertySet::read", "propset::PropertyValue::read"]),
     ],
     "bounds": "one cell / one bit-field / pools of <=3 entries / property sets of 2 integer properties",
     "outside": "Package::open, read_rows, code pages, strings in property sets, modification of foreign files",
@@ -307,9 +304,7 @@ PROPS["C10"] = {
          functions=["propset::PropertyValue::write", "propset::PropertyValue::encoded_size_including_padding", "timestamp::Timestamp::write_to"]),
        H(_PS + "c10_codepage_property", timeout=300, symbolic="code page id (any i32 that names a code page: all 26)", bounds="loop-free",
          functions=["propset::PropertySet::set_codepage", "propset::PropertySet::set", "codepage::CodePage::from_id", "codepage::CodePage::id"]),
-       H(_PS + "c09_propvalue_read_filetime", timeout=600, mem_gb=5, symbolic="8 FILETIME bytes, stream length", bounds="type tag concrete", functions=["propset::PropertyValue::read"]),
-       H(_PS + "c10_propset_ints_roundtrip", tier="thorough", timeout=2400, mem_gb=24, symbolic="I4/I2/FILETIME values; ids concrete",
-         bounds="2 properties; unwind 10", functions=["propset::PropertySet::write", "propset::PropertySet::read"])],
+       H(_PS + "c09_propvalue_read_filetime", timeout=600, mem_gb=5, symbolic="8 FILETIME bytes, stream length", bounds="type tag concrete", functions=["propset::PropertyValue::read"])],
     "bounds": "one property value at a time; 11 string shapes; all scalar payloads; all 26 code pages for property 1",
     "outside": "setter sequences, multi-property sets, template property, encoding_rs code pages, save/reopen",
     "assumptions": _KASSUME + ["hook feature msi_verif exposes PropertyValue::write / encoded_size_including_padding unchanged"],
@@ -495,7 +490,6 @@ PROPS["C09"] = {
         H(_PS + "c09_propvalue_read_unknown", timeout=600, mem_gb=5, symbolic="payload bytes, stream length", bounds="type tag concrete (5: unknown)", functions=["propset::PropertyValue::read"]),
     ] + [H(_PS + n, tier="thorough", timeout=900, mem_gb=5, symbolic="payload bytes, stream length", bounds="type tag concrete", functions=["propset::PropertyValue::read"])
          for n in ["c09_propvalue_read_i2", "c09_propvalue_read_i1", "c09_propvalue_read_filetime", "c09_propvalue_read_empty", "c09_propvalue_read_lpstr_len2", "c09_propvalue_read_lpstr_huge"]] + [
-        H(_PS + "c09_propset_read_total", tier="thorough", timeout=2400, mem_gb=12, symbolic="header fields and 24 section bytes", bounds="<=1 property; unwind 26", functions=["propset::PropertySet::read", "propset::PropertyValue::read"]),
     ],
     "bounds": "buffers of 4-14 bytes; pools of 2 entries",
     "outside": "arbitrary files, Package::open, read_rows, joins, FFI",
